@@ -170,6 +170,41 @@ def mutable_defaults():
     return out
 
 
+def extra_names():
+    """attribute names a metabook JSON value may carry besides the declared ones: an unknown one plus every public name the
+    classes themselves define (methods, properties) — harvested from the current source"""
+    metabook, _ = _mods()
+    names = ["note"]
+    for cn in ("Article", "Collection", "Chapter"):
+        for k in dir(getattr(metabook, cn)):
+            if not k.startswith("_") and k not in names:
+                v = getattr(getattr(metabook, cn), k)
+                if callable(v) or isinstance(v, property):
+                    names.append(k)
+    return names
+
+
+def h_json_first(tidx: int, nidx: int, val: str, t: str):
+    """A JSON value written by someone else (any type, a title, one extra key whose name may coincide with a method or
+    property of the class): loading and serializing it again keeps every key with its value."""
+    metabook, myjson = _mods()
+    assume(len(val) <= 2 and len(t) <= 2)
+    typ = MB_TYPES[choose(tidx, len(MB_TYPES))]
+    names = extra_names()
+    name = names[choose(nidx, len(names))]
+    v0 = {"type": typ, "title": t, name: val}
+    obj = loads_model(v0)
+    v1 = dumps_model(obj)
+    if not isinstance(v1, dict):
+        return {"sig": "json-first|not-an-object", "value": v0}
+    for k, v in v0.items():
+        if k == "type":
+            continue
+        if k not in v1 or v1[k] != v:
+            return {"sig": "json-first|key-lost-or-changed", "value": v0, "key": k, "after": v1.get(k)}
+    return None
+
+
 def h_sparse(tidx: int, p0: bool, p1: bool, p2: bool, p3: bool, t: str):
     """An object loaded from a JSON value that carries only some of its keys (older / hand-written metabooks), then
     changed in place: no other instance, no fresh instance and no class-level default may see the change."""
@@ -393,6 +428,7 @@ def build(tier: str) -> CheckSpec:
          "hr0": bool, "hr1": bool, "hr2": bool, "d0": bool, "d1": bool, "d2": bool, "extra_val": str, "ctitle": str}
     cubes = [Cube("round trip, 0..3 items", h_roundtrip, p, {}, timeout=tmo, per_path_timeout=30, group="roundtrip"),
              Cube("distinct collections", h_distinct, {"which": int, "t0": str, "t1": str, "tnew": str, "r0": int, "rnew": int, "hr0": bool}, {}, timeout=tmo, group="distinct"),
+             Cube("JSON value with an extra key -> load -> serialize", h_json_first, {"tidx": int, "nidx": int, "val": str, "t": str}, {}, timeout=tmo, group="roundtrip"),
              Cube("sparse JSON values, then in-place change", h_sparse, {"tidx": int, "p0": bool, "p1": bool, "p2": bool, "p3": bool, "t": str}, {}, timeout=tmo, group="defaults"),
              ] + [Cube(f"collection id: requests differing in {n}", h_collid_one, {"b": str, "e": str, "l": str, "hl": bool, "m": int, "x": str, "hx": bool, "mx": int},
                        {"which": w}, timeout=tmo, per_path_timeout=30, group="collection-id") for w, n in enumerate(["base_url", "script_extension", "login", "metabook"])
@@ -410,6 +446,7 @@ def build(tier: str) -> CheckSpec:
                 "collection id": "pairs of requests that differ in at most one of base_url / script_extension (symbolic strings <= 2 chars over %r, the other fields fixed), login_credentials (absent or <= 1 char), "
                                  "metabook (13 JSON texts in 9 content classes: key order, whitespace, re-serialization, undeclared attributes, revision, title, order, chapter nesting, collection title); "
                                  "pairs where two adjacent fields both vary (<= 1 char each; field boundary)" % ID_ALPHABET,
+                "json first": "JSON values of every type with a title and one extra key named 'note' or like any public method / property of the classes (harvested from the source), value <= 2 chars",
                 "sparse": "JSON values of every metabook type carrying any subset of title / items / licenses / wikis, loaded twice, every list/dict attribute changed in place"},
         stubs=["nserve.sha256 -> object that keeps the hashed text (ids are compared on the pre-image); sys.stdout silenced inside make_collection_id",
                "JSON text layer (simplejson C encoder/decoder) modelled as the identity on JSON values: dumps_model / loads_model call MbEncoder.default and object_hook exactly where the real codec does"],
@@ -443,6 +480,19 @@ def replay(cand: dict) -> dict:
         if ok:
             return {"reproduced": False, "what": "real myjson round trip is a fixed point for this collection"}
         return {"reproduced": True, "signature": "C13|roundtrip", "what": f"myjson.loads(myjson.dumps(c)) differs: {s1[:200]!r} -> {s2[:200]!r}"}
+    if cand["fn"] == "h_json_first":
+        import json as pyjson
+
+        d = cand.get("concrete", {}).get("detail") or {}
+        if "value" not in d:
+            return {"reproduced": False, "what": "the concrete re-run of the harness keeps every key"}
+        txt = pyjson.dumps(d["value"])
+        back = pyjson.loads(myjson.dumps(myjson.loads(txt)))
+        k = d["key"]
+        if isinstance(back, dict) and back.get(k) == d["value"][k]:
+            return {"reproduced": False, "what": "real codec keeps the key"}
+        return {"reproduced": True, "signature": "C13|json-first|key-lost-or-changed",
+                "what": f"myjson.dumps(myjson.loads({txt!r})) has {k!r} = {back.get(k) if isinstance(back, dict) else back!r} instead of {d['value'][k]!r}"}
     if cand["fn"] == "h_sparse":
         import json as pyjson
 
